@@ -82,6 +82,20 @@ fn refused() -> &'static Vec<SocketAddr> {
     REFUSED.get_or_init(|| (0..6).map(|i| make_refuser(i < 3)).collect())
 }
 
+/// Configurations with an address that accepts late (family happy_late; connect timeout 3 s).
+pub fn generate_late() -> Vec<Value> {
+    let a = |fam: &str, n: usize, beh: &str| json!({"fam":fam,"n":n,"beh":beh});
+    let cfgs = vec![
+        vec![a("v6", 1, "late"), a("v4", 1, "blackhole")],
+        vec![a("v6", 1, "late"), a("v4", 1, "refuse")],
+        vec![a("v4", 1, "late"), a("v6", 1, "blackhole")],
+        vec![a("v6", 1, "late"), a("v4", 1, "blackhole"), a("v6", 2, "blackhole")],
+        vec![a("v6", 1, "refuse"), a("v4", 1, "late"), a("v6", 2, "blackhole")],
+        vec![a("v6", 1, "late"), a("v6", 2, "blackhole")],
+    ];
+    cfgs.into_iter().enumerate().map(|(i, c)| json!({"id":format!("late-{}", i),"kind":"happy","resolved":c,"cto":3000})).collect()
+}
+
 /// Wall-clock guard against an overloaded machine: a successful race that took clearly longer than its own attempts
 /// explain (attempt i is started at most i race intervals after the first) is run a second time and the faster of the
 /// two runs is reported. Code that really waits too long does so both times.
@@ -140,6 +154,45 @@ fn run_once(sc: &Value) -> Vec<String> {
                                 let mut b = [0u8; 2048];
                                 if let Ok(k) = s.read(&mut b) {
                                     if k > 0 {
+                                        *winner.lock().unwrap() = Some(key.clone());
+                                        let _ = s.write_all(b"HTTP/1.1 200 OK\r\nContent-Length: 2\r\n\r\nok");
+                                    }
+                                }
+                            }
+                            Err(_) => std::thread::sleep(Duration::from_millis(3)),
+                        }
+                    }
+                }));
+                addr
+            }
+            "late" => {
+                // the accept queue is full at first (the SYN is dropped); half a second later the listener starts
+                // accepting, so the connection is established by the SYN the kernel retransmits after about 1 s -
+                // long after the race has gone on to the next address
+                let mut hole = make_bound(v6, true);
+                let addr = hole.addr;
+                let fd = hole._fd;
+                let fillers = std::mem::take(&mut hole._fillers);
+                std::mem::forget(hole);
+                let stop = stop.clone();
+                let winner = winner.clone();
+                let key = (fam.clone(), n);
+                let nconn = nconn.clone();
+                servers.push(std::thread::spawn(move || {
+                    std::thread::sleep(Duration::from_millis(500));
+                    drop(fillers);
+                    use std::os::unix::io::FromRawFd;
+                    let l = unsafe { TcpListener::from_raw_fd(fd) };
+                    l.set_nonblocking(true).ok();
+                    while !stop.load(Ordering::SeqCst) {
+                        match l.accept() {
+                            Ok((mut s, _)) => {
+                                s.set_nonblocking(false).ok();
+                                s.set_read_timeout(Some(Duration::from_millis(300))).ok();
+                                let mut b = [0u8; 2048];
+                                if let Ok(k) = s.read(&mut b) {
+                                    if k > 0 {
+                                        nconn.fetch_add(1, Ordering::SeqCst);
                                         *winner.lock().unwrap() = Some(key.clone());
                                         let _ = s.write_all(b"HTTP/1.1 200 OK\r\nContent-Length: 2\r\n\r\nok");
                                     }
